@@ -167,6 +167,11 @@ C07Stream(T, st, r, f) ==
                \cup (IF st[k].p.rt # "ok" THEN bad("not-parsable", k) ELSE {})
                \cup (IF st[k].p.plen # PredLen(st[k].p) THEN bad("encoded-length-differs-from-the-blue-book-layout", k) ELSE {})
                \cup (IF st[k].p.t \in {"FD", "EOF", "ACK"} /\ st[k].p.plen > T.cfg.maxPkt THEN bad("exceeds-max-packet-length", k) ELSE {})
+               \* an ACK acknowledges the Finished PDU the same call received: directive code, and the condition code echoed
+               \* (CCSDS 727.0-B-5 5.2.4 - part of "conformant")
+               \cup (IF st[k].p.t = "ACK" /\ T.ev[st[k].i].call = "fsm" /\ T.ev[st[k].i].arg.t = "FIN"
+                        /\ (st[k].p.acked # "FIN" \/ st[k].p.cond # T.ev[st[k].i].arg.cond)
+                     THEN bad("ack-does-not-echo-the-finished-pdu", k) ELSE {})
                : k \in 1..n }
   \* File Data: consecutive from 0, non-empty, within the segment length, the file's bytes, one per call
   \cup UNION { LET p == st[k].p
@@ -229,6 +234,10 @@ C08(T) ==
               anyInvalid == \E k \in DOMAIN e.arg.reqs : e.arg.reqs[k] # <<0, 0>> /\ InvalidReq(e.arg.reqs[k], sent) IN
           IF e.exc = "none" THEN
              (IF anyInvalid THEN {V("C08", "invalid-request-not-rejected", i, Kf(T), "", "")} ELSE {})
+             \* "resumes exactly where it was": serving a NAK while the EOF awaits its ACK leaves the retry count alone
+             \cup (IF e.pre.step = "WAITING_FOR_EOF_ACK" /\ e.post.ackCnt # e.pre.ackCnt /\ e.flt = <<>>
+                      /\ ~\E k \in DOMAIN e.out : e.out[k].t = "EOF"
+                   THEN {V("C08", "nak-disturbed-the-eof-ack-procedure", i, Kf(T), "", "")} ELSE {})
              \cup (IF ~anyInvalid /\ resent # <<>> /\ ~C08Walk(e.arg.reqs, resent, f, EffSeg(T, resent[1].h), sent)
                    THEN {V("C08", "resent-pdus-do-not-tile-the-requests", i, Kf(T), "", "")} ELSE {})
              \cup (IF ~anyInvalid /\ resent = <<>> /\ \E k \in DOMAIN e.arg.reqs : e.arg.reqs[k] = <<0, 0>> \/ e.arg.reqs[k][1] < e.arg.reqs[k][2]
